@@ -125,8 +125,11 @@ def main(prop, gen, run, *, driver, rule, trusted_base=(), assumptions=(), spec=
         for j, r in enumerate(many):
             r = dict(r)
             r.setdefault("id", f"{n}.{j}" if len(many) > 1 else str(n))
-            r.setdefault("kind", kind if "kind" not in r else r["kind"])
-            r.setdefault("input", {k: v for k, v in inp.items() if k != "corpus_file"})
+            r.setdefault("kind", kind)
+            for pre in ("corpus:", "replay:"):
+                if kind.startswith(pre) and not str(r["kind"]).startswith(pre):
+                    r["kind"] = pre + str(r["kind"])
+            r.setdefault("input", dict({k: v for k, v in inp.items() if k != "corpus_file"}, kind=base_kind))
             r.setdefault("edge", False)
             if r.get("edge"):
                 stats.add("edge_skipped")
@@ -134,6 +137,10 @@ def main(prop, gen, run, *, driver, rule, trusted_base=(), assumptions=(), spec=
             if r.get("impl") is not None:
                 stats.add("impl=" + str(r["impl"]).split()[0][:16])
             cases.append(r)
+    impl_keys = [k for k in stats if k.startswith("impl=")]
+    if len(impl_keys) > 40:  # numeric answers: the histogram of first tokens is noise
+        for k in impl_keys:
+            del stats[k]
     out = {
         "property": prop,
         "driver": driver,
